@@ -56,7 +56,7 @@ manifest = {
         "name": "kafcheck",
         "path": "checker/cmd/kafcheck",
         "serves_properties": [c["property_id"] for c in checks],
-        "kind_free_text": "repository-specific static analyser: go/packages type-checked syntax + go/ssa; CFG path search with guard atoms (must-pass), lockset dataflow, who-may-write tables, value provenance, decoded-length taint, constant-table agreement. Never executes repository code.",
+        "kind_free_text": "repository-specific static analyser: go/packages type-checked syntax + go/ssa; CFG path search with guard atoms (must-pass), lockset dataflow, who-may-write tables, value provenance, decoded-length taint, constant-table agreement, demand-driven context-sensitive points-to (may-write) analysis. Never executes repository code.",
     }],
     "checks": checks,
     "not_applicable": na,
